@@ -188,10 +188,10 @@ func cmdCheck(args []string) int {
 		return 2
 	}
 	timeout := 30000
-	capPaths := 60000
+	capPaths := 200000
 	if *tier == "thorough" {
 		timeout = 300000
-		capPaths = 600000
+		capPaths = 3000000
 	}
 	if *maxPaths > 0 {
 		capPaths = *maxPaths
